@@ -23,14 +23,14 @@ CASE_TIMEOUT = 120
 WALL = {"quick": 900, "thorough": 7200}
 REQUIRED = {"residue_edges_checked": 2000, "edges_realised": 300, "edges_missing": 300, "warnings_seen": 300,
             "gen_coords_refusals": 20, "gen_coords_accepts": 3, "atom_removal_cases": 3,
-            "asked_before_and_after_links": 100}
+            "asked_before_and_after_links": 100, "library_cases": 100}
 MSG = re.compile(r"Missing a link between residue (\d+) (\S+) and residue (\d+) (\S+)\.")
 ADDS = {"n": 0}
 
 
 def plan(tier, seed):
     n = 3000 if tier == "quick" else 40000
-    return [["miss", i] for i in range(n)]
+    return [["miss", i] for i in range(n)] + [["library", i] for i in range(n // 8)]
 
 
 def setup():
@@ -69,8 +69,13 @@ def run_case(cid, rng, workdir):
                            layouts=["ff", "ff", "ff+itp", "itp+ff", "itp_dangling", "multi"],
                            link_opts={"p_remove": 0.1, "p_nonedge": 0.15, "p_pattern": 0.15, "p_edge": 0.2,
                                       "linktypes": True, "nres": [2, 2, 2, 3]})
-    ev = PC.evaluate(case, workdir)
-    res["sig"] = sig_of([case["files"], case["graph"]])
+    if cid[0] == "library":
+        case = PC.build_library_case(rng)          # shipped libraries: unrelated residues next to each other have no link
+        ev = PC.evaluate_library(case, workdir)
+        bump(res, "library_cases")
+    else:
+        ev = PC.evaluate(case, workdir)
+    res["sig"] = sig_of([case["files"], case["graph"], case.get("lib")])
     res["sample"] = case["descr"]
     if ev["ref"] is None:
         res["status"] = "rejected"
@@ -138,6 +143,8 @@ def run_case(cid, rng, workdir):
                           "[captured molecule] residues %s: atom-level edge present=%s, warning present=%s" %
                           (sorted(pair), pair in joined, pair in gset), w)
     # ---- history clause: the search is a pure function of the current molecule (asked before and after links) ------
+    if cid[0] == "library":
+        return res            # the history clause and the gen_coords gate need the files of a generated case
     if rng.random() < 0.15 and not ref["removed"]:
         from polyply.src.load_library import load_ff_library
         from polyply.src.meta_molecule import MetaMolecule
